@@ -15,7 +15,7 @@ EXPLANATION = (
     "colour name once and reject partial groups and wrong state ranges, and run (with the extension-name validation) before "
     "anything is written; that every writer loop makes progress, in particular that max_points_per_packet >= 1 so that "
     "finalize's drain loop ends; and whether validate_name implies XML-name validity (it does not for a leading digit or "
-    "dash: listed known finding). Not decided: that accepted input always reads back (C01/C04/C06 clauses).")
+    "dash: listed known finding). Caller strings pass the escaping gate of C04-R5 (a string altered by double escaping is a value stored unfaithfully). Not decided: that accepted input always reads back (C01/C04/C06 clauses).")
 
 
 def run(ctx):
@@ -25,6 +25,7 @@ def run(ctx):
     ctx.rule("R5", "prototype validators: all-or-nothing groups, state ranges, validation before construction / registration")
     ctx.rule("R6", "writer loops make progress; max_points_per_packet >= 1; allocation sizes are lengths of in-memory data")
     ctx.rule("R7", "names reach XML only through a validator that implies XML-name validity")
+    ctx.rule("R8", "caller strings are stored faithfully: CDATA split for element text, single-pass &,<,\" escaping for attribute values (shared with C04-R5)")
     for cfg in ["lib", "lib_crc32c"]:
         prog, info = load_program(cfg, "e57")
         ctx.configs[cfg] = info
@@ -39,4 +40,5 @@ def run(ctx):
         bound_rules.equal_length_classes(ctx, prog, "R6")
         if cfg == "lib":
             xml_rules.xml_name_start(ctx, prog, "R7")
+            xml_rules.escaping_gate(ctx, prog, "R8")
     ctx.cfg = None
